@@ -178,6 +178,25 @@ def _seqs(first, rest, maxlen):
     return out
 
 
+def _stuff_at_every_bit_position():
+    """PID-led sequences in which the sixth consecutive 1 (hence the stuffed 0 / the transmitter's stall) falls on every
+    bit position k of a byte - in particular on the position where the shifter runs empty and reloads - with the run
+    inside one byte (k >= 5) or straddling the byte boundary at every offset (k < 5), with the run ending there or
+    continuing, right after the PID or one byte later, and with 0, 1 or 2 distinguishable bytes still to be handed over."""
+    out = []
+    for k in range(8):
+        if k >= 5:
+            pats = [((0x3F << (k - 5)) & 0xFF,), ((0xFF << (k - 5)) & 0xFF,)]
+        else:
+            prev = (0xFF << (3 + k)) & 0xFF                 # 5-k ones at the top of the preceding byte
+            pats = [(prev, (1 << (k + 1)) - 1), (prev, 0xFF)]
+        for pat in pats:
+            for pre in ((0x4B,), (0x4B, 0x00)):
+                for post in ((0x12, 0x34), (0x12,), ()):
+                    out.append(pre + pat + post)
+    return out
+
+
 def configs(tier):
     q = tier == "quick"
     out = []
@@ -286,6 +305,7 @@ class PhySpec(Spec):
                 # a stuffed 0 exactly on a byte boundary with more bytes to follow (the stall meets the byte hand-over)
                 seqs += [x for x in [(0xC3, 0xFC, 0x00, 0xFF), (0xC3, 0xFC, 0xFF, 0x00), (0x4B, 0xFC, 0xAA, 0x80), (0xC3, 0xFF, 0xFF, 0x00),
                                      (0xE1, 0xFC, 0xFC, 0xAA, 0x7F)] if x not in seqs]
+                seqs += [x for x in _stuff_at_every_bit_position() if x not in seqs]
             for s in seqs:
                 for g in cfg["gaps"]:
                     for j in cfg["junk"]:
